@@ -2,8 +2,16 @@
    operand : (ts (L (T T:<t> <cell>)*)) | (num <cell>) | (L operand*)        cell = I:<4x> | F:nan
    ops     : (ops bin <add|sub|mul|div> <a> <b> <ij|oj|lj|rj> <N|ffill|bfill>)      a, b: operand or list of operands
              (ops agg <sum|mean|count> (L operand*) <how> <method>)
-   replies : (ts (L (T T:<t> Q:<num>/<den> | F:nan)*)) | (num Q:<num>/<den> | F:nan) | N -/
-import PygModel.Ops
+   replies : (ts (L (T T:<t> Q:<num>/<den> | F:nan)*)) | (num Q:<num>/<den> | F:nan) | N
+   frames  : foperand = operand | (df (T (L T:<t>*) (D (<hexname> (L <cell>*))*)))     (distinct names, >= 1 column, rectangular)
+             (ops binf <add|sub|mul|div> <a> <b> <how> <method> <ij|oj>)                a, b: foperand or list of foperands
+             (ops aggf <sum|mean|count> (L (df ..)*) <how> <method> <ij|oj>)            frames with >= 2 columns each
+   others  : (ops cmp <gt|ge|lt|le> <a> <b> <how> <method>)    replies (bts (L (T T:<t> true|false)*)) | (flag true|false)
+             (ops mm <min|max> <a> <b> <how> <method>)           a, b: operand or list of operands; replies as `bin`
+             (ops pow <a> <b> <how> <method>)                    exponents NaN or non-negative integers, else bad-op
+   replies : ... | (df (T (L T:<t>*) (D (<hexname> (L Q:<num>/<den> | F:nan ...))*))) -/
+import PygModel.OpsF
+import PygModel.OpsX
 import PygModel.AlignDriver
 
 namespace Pyg.OpsDriver
@@ -52,6 +60,56 @@ def aggOf : Sexp → Option Agg
   | .atom "sum" => some .sum | .atom "mean" => some .mean | .atom "count" => some .count
   | _ => Option.none
 
+/-! ### frames -/
+
+def frameOfSexp : Sexp → Option RFrame
+  | .node [.atom "T", .node (.atom "L" :: ts), .node (.atom "D" :: kvs)] => do
+      let idx ← ts.mapM timeOf
+      let cols ← kvs.mapM fun kv => match kv with
+        | .node [.atom k, .node (.atom "L" :: cells)] => do
+            let k ← hexDecode k
+            let c ← cells.mapM ratOfCell
+            if c.length = idx.length then pure (k, c) else Option.none
+        | _ => Option.none
+      -- frames without columns or with duplicate names take branches of `presync` that are not modelled
+      if cols.isEmpty || !(cols.map (·.1)).eraseDups.length == cols.length then Option.none
+      else pure { idx := idx, cols := cols }
+  | _ => Option.none
+
+def foperandOf : Sexp → Option FOperand
+  | .node [.atom "df", x] => (frameOfSexp x).map .df
+  | x => (operandOf x).map FOperand.ofOperand
+
+def foperandsOf : Sexp → Option (List FOperand)
+  | .node (.atom "L" :: xs) => xs.mapM foperandOf
+  | .atom "N" => some []
+  | x => (foperandOf x).map fun o => [o]
+
+def frameStr (f : RFrame) : String :=
+  "(df (T (L" ++ String.join (f.idx.map fun t => s!" T:{t}") ++ ") (D" ++
+    String.join (f.cols.map fun c => " (" ++ hexEncode c.1 ++ " (L" ++ String.join (c.2.map fun v => " " ++ ratStr v) ++ "))") ++ ")))"
+
+def foperandStr : FOperand → String
+  | .ts s => operandStr (.ts s)
+  | .num q => operandStr (.num q)
+  | .df f => frameStr f
+
+def colHowOf2 : Sexp → Option ColHow
+  | .atom "ij" => some .ij | .atom "oj" => some .oj
+  | _ => Option.none
+
+def cmpOf : Sexp → Option Cmp
+  | .atom "gt" => some .gt | .atom "ge" => some .ge | .atom "lt" => some .lt | .atom "le" => some .le
+  | _ => Option.none
+
+def mmOf : Sexp → Option MM
+  | .atom "min" => some .min | .atom "max" => some .max
+  | _ => Option.none
+
+def boperandStr : BOperand → String
+  | .ts idx vals => "(bts (L" ++ String.join ((idx.zip vals).map fun p => s!" (T T:{p.1} {p.2})") ++ "))"
+  | .flag b => s!"(flag {b})"
+
 abbrev St := Unit
 def init : St := ()
 def modelName : String := "ops"
@@ -67,6 +125,30 @@ def handle1 (op : String) (args : List Sexp) : Option String := do
       let g ← aggOf g; let xs ← operandsOf xs; let how ← howOf how; let m ← dirOf m
       match aggregate g how m xs with
       | some s => pure ("ok " ++ operandStr (.ts s))
+      | Option.none => pure "ok (num F:nan)"
+  | "cmp", [c, a, b, how, m] =>
+      let c ← cmpOf c; let a ← operandOf a; let b ← operandOf b; let how ← howOf how; let m ← dirOf m
+      pure ("ok " ++ boperandStr (cmpop c how m a b))
+  | "mm", [k, a, b, how, m] =>
+      let k ← mmOf k; let as ← operandsOf a; let bs ← operandsOf b; let how ← howOf how; let m ← dirOf m
+      match mmList k how m as bs with
+      | some r => pure ("ok " ++ operandStr r)
+      | Option.none => pure "ok N"
+  | "pow", [a, b, how, m] =>
+      let a ← operandOf a; let b ← operandOf b; let how ← howOf how; let m ← dirOf m
+      if powDomain b then pure ("ok " ++ operandStr (powop how m a b)) else Option.none
+  | "binf", [o, a, b, how, m, ch] =>
+      let o ← opOf o; let as ← foperandsOf a; let bs ← foperandsOf b; let how ← howOf how; let m ← dirOf m; let ch ← colHowOf2 ch
+      match opListF o how m ch as bs with
+      | some r => pure ("ok " ++ foperandStr r)
+      | Option.none => pure "ok N"
+  | "aggf", [g, xs, how, m, ch] =>
+      let g ← aggOf g; let xs ← foperandsOf xs; let how ← howOf how; let m ← dirOf m; let ch ← colHowOf2 ch
+      let fs ← xs.mapM fun x => match x with
+        | .df f => if f.cols.length > 1 then some f else Option.none
+        | _ => Option.none
+      match aggregateF g how m ch fs with
+      | some f => pure ("ok " ++ frameStr f)
       | Option.none => pure "ok (num F:nan)"
   | _, _ => Option.none
 
